@@ -341,6 +341,10 @@ pub fn c05(x: &str, toks: &[GTok], out: &str, cfg: &Cfg, ctx: &mut Ctx) {
     // generator's tokens to the remaining ones by ordinal
     let commentish = |t: &Tok| matches!(t.kind, Kind::Comment(_) | Kind::CompilerDirective | Kind::Conditional(_));
     let keep: Vec<usize> = (0..tx.len()).filter(|&i| !commentish(&tx[i])).collect();
+    // (the grammar itself has a few productions with directive tokens: they are not mapped either)
+    let gen: Vec<&GTok> = toks.iter().filter(|t| !(t.text.starts_with("{$") || t.text.starts_with("//") || t.text.starts_with("(*") || (t.text.starts_with('{') && t.text.ends_with('}')))).collect();
+    let toks: Vec<GTok> = gen.into_iter().cloned().collect();
+    let toks = &toks[..];
     if keep.len() != toks.len() + 1 {
         ctx.count("c05.skipped-token-mapping");
         return;
